@@ -300,6 +300,16 @@ type block struct {
 	reps               int  // runs per (graph, request) without failing commands
 	failsPerReq        int  // extra runs per (graph, request) with failing commands
 	variants           bool // per graph: undefined-dependency and duplicate-definition variants
+	loopOnce           bool // graphs with a self-loop (mostly a certain cycle error) get one run per request, not reps
+}
+
+// selfLoops: the diagonal of the n×n edge matrix
+func selfLoops(n int) uint64 {
+	var m uint64
+	for i := 0; i < n; i++ {
+		m |= 1 << uint(i*n+i)
+	}
+	return m
 }
 
 func genBlock(w *bufio.Writer, rng *rand.Rand, b block) {
@@ -321,8 +331,12 @@ func genBlock(w *bufio.Writer, rng *rand.Rand, b block) {
 				rs = append(rs, []string{taskNames[rng.Intn(n)], taskNames[rng.Intn(n)], taskNames[rng.Intn(n)]})
 			}
 		}
+		reps, first := b.reps, 0
+		if b.loopOnce && reps > 1 && mask&selfLoops(n) != 0 {
+			reps, first = 1, bits.OnesCount64(mask)%3
+		}
 		for _, r := range rs {
-			for rep := 0; rep < b.reps; rep++ {
+			for rep := first; rep < first+reps; rep++ {
 				emit(w, tcase{defs: graphDefs(n, mask, rep), req: r}, rep)
 			}
 			// failing-task variants: the run loop must carry on and keep the order
@@ -436,10 +450,11 @@ func graphGen(w *bufio.Writer, a map[string]string) {
 	sup.CorpusLines(w, "graph")
 	if !thorough {
 		// all graphs over ≤ 3 tasks, all graphs over 4 tasks with ≤ 5 edges; request lists of length ≤ 2; 3 runs each
+		// (4 tasks: one run for the graphs with a self-loop, where a cycle error is the rule)
 		genBlock(w, rng, block{n: 1, maxEdges: 1, reqLen: 2, reps: 3, failsPerReq: 2, variants: true})
 		genBlock(w, rng, block{n: 2, maxEdges: 4, reqLen: 2, reps: 3, failsPerReq: 3, variants: true})
 		genBlock(w, rng, block{n: 3, maxEdges: 9, reqLen: 2, reps: 3, failsPerReq: 4, variants: true})
-		genBlock(w, rng, block{n: 4, maxEdges: 5, reqLen: 2, reps: 3})
+		genBlock(w, rng, block{n: 4, maxEdges: 5, reqLen: 2, reps: 3, loopOnce: true})
 		genBlock(w, rng, block{n: 4, maxEdges: 4, reqLen: 1, failsPerReq: 2})
 		genBlock(w, rng, block{n: 4, maxEdges: 2, reqLen: 1, variants: true})
 		genRandom(w, rng, 600, 4, 3)
